@@ -187,3 +187,95 @@ Proof.
   all: psimpl.
   all: pose proof (dh_comm (c_er c) (c_si c)); repeat split; congruence.
 Qed.
+
+Lemma kk_tamper : forall c adv si sr, c_kk c = true -> no_forgery_run c adv ->
+  r_init (run c adv) = Completed si -> r_resp (run c adv) = Completed sr ->
+  s_send si = s_recv sr /\ s_recv si = s_send sr /\
+  s_remote si = Some (Pub (Priv (c_sr c))) /\ s_remote sr = Some (Pub (Priv (c_si c))) /\
+  s_auth si = Some (c_payload c).
+Proof.
+  intros c adv si sr K NF Hi Hr.
+  destruct (run_completed c adv si sr Hi Hr) as (pi & pr & Ei & Er & ER).
+  unfold no_forgery_run in NF. rewrite ER in Hi, Hr, NF. rewrite K in *.
+  unfold mk_init in Ei. unfold mk_resp in Er. rewrite K in *.
+  remember (c_exp_i c) as xi eqn:Hxi. remember (c_exp_r c) as xr eqn:Hxr. clear Hxi Hxr.
+  unfold new_party in Ei, Er. cbn [andb] in Ei, Er.
+  destruct (c_maxi c <? 2); [discriminate|]. destruct (c_maxr c <? 2); [discriminate|].
+  pn Ei. pn Er. inversion Ei; subst pi; clear Ei. inversion Er; subst pr; clear Er.
+  destruct (run_kk_completed _ _ _ _ _ Hi Hr)
+    as (i1 & m1 & r1 & r2 & m2 & i2 & W1 & R1 & W2 & R2 & WIRE & -> & ->).
+  rewrite WIRE in NF. clear Hi Hr ER WIRE.
+  (* act 1, written *)
+  apply write_act_inv in W1. destruct W1 as (q & out & W & H). pn W. inversion W; subst q out; clear W.
+  pn H. destruct H as [(_ & Vi & -> & ->) | [(? & _) | (? & _)]]; try discriminate.
+  (* act 1, read *)
+  apply read_act_inv in R1. destruct R1 as (v1 & fs1 & q & rest & E1 & _ & RT & H).
+  pn RT. rt_Te RT f1 IP1. rt_dh RT. rt_dh RT. rt_end RT.
+  pn H. destruct H as [(_ & Vv1 & -> & ->) | [(? & _) | (? & _)]]; try discriminate.
+  (* act 2, written *)
+  apply write_act_inv in W2. destruct W2 as (q & out & W & H). pn W. inversion W; subst q out; clear W.
+  pn H.
+  destruct H as [(? & _) | [(_ & Vr0 & PL & -> & ->) | (_ & Vr12 & -> & ->)]]; [congruence | | ].
+  (* act 2, read *)
+  all: apply read_act_inv in R2; destruct R2 as (v2 & fs2 & q & rest & E2 & _ & RT & H).
+  all: pn RT; rt_Te RT f2 IP2; rt_dh RT; rt_dh RT; rt_end RT.
+  all: pn H.
+  all: destruct H as [(? & _) | [(_ & Vv20 & x & -> & ->) | (_ & Vv212 & x & -> & ->)]]; [congruence | | ].
+  all: pn E1; pn E2.
+  all: pose proof (nf_use2 _ _ _ NF) as NF'; clear NF.
+  (* (1) the responder's act-1 payload seal *)
+  all: pose proof (NF' 1 _ _ _ eq_refl ltac:(lia) E1 (or_intror (or_intror (or_introl eq_refl))) eq_refl) as A1.
+  all: cbn [app In] in A1.
+  all: repeat (destruct A1 as [A1|A1]); try discriminate A1; try contradiction.
+  all: injection A1; clear A1; intros; subst xi xr f1.
+  (* (2) the initiator reads the first payload seal of act 2 *)
+  all: pose proof (NF' 2 _ _ _ eq_refl ltac:(lia) E2 (or_intror (or_intror (or_introl eq_refl))) eq_refl) as A2.
+  all: cbn [app In] in A2.
+  all: repeat (destruct A2 as [A2|A2]); try discriminate A2; try contradiction.
+  all: injection A2; clear A2; intros; subst f2 x.
+  all: psimpl.
+  all: repeat split; congruence.
+Qed.
+
+(* ------------------------------------------------------------------ *)
+(* T6.  Proved under the run-relative no-forgery condition no_forgery_run (implied by
+   no_forgery; see SymProofs.v for why no_forgery itself is unsatisfiable by any forwarding
+   adversary).  No side condition is needed: wf c is not used, the pass phrases, the payload
+   and, for KK, the stored keys c_exp_i / c_exp_r are arbitrary terms (a KK run with wrong stored
+   keys simply does not complete, so the conclusion about s_remote holds for completed runs). *)
+Theorem tamper_agreement_run : forall c adv si sr, no_forgery_run c adv ->
+  r_init (run c adv) = Completed si -> r_resp (run c adv) = Completed sr ->
+  s_send si = s_recv sr /\ s_recv si = s_send sr /\
+  s_remote si = Some (Pub (Priv (c_sr c))) /\ s_remote sr = Some (Pub (Priv (c_si c))) /\
+  s_auth si = Some (c_payload c).
+Proof.
+  intros c adv si sr NF Hi Hr.
+  destruct (c_kk c) eqn:K; [eapply kk_tamper | eapply xx_tamper]; eauto.
+Qed.
+
+Theorem tamper_agreement : forall c adv si sr, wf c -> no_forgery c adv ->
+  r_init (run c adv) = Completed si -> r_resp (run c adv) = Completed sr ->
+  s_send si = s_recv sr /\ s_recv si = s_send sr /\
+  s_remote si = Some (Pub (Priv (c_sr c))) /\ s_remote sr = Some (Pub (Priv (c_si c))) /\
+  s_auth si = Some (c_payload c).
+Proof.
+  intros c adv si sr _ NF. apply tamper_agreement_run. apply no_forgery_run_weaker. exact NF.
+Qed.
+
+(* consequences for the honest channel: the faithful and the version-swapping adversaries *)
+Corollary faithful_agreement : forall c si sr,
+  r_init (run c faithful) = Completed si -> r_resp (run c faithful) = Completed sr ->
+  s_send si = s_recv sr /\ s_recv si = s_send sr /\
+  s_remote si = Some (Pub (Priv (c_sr c))) /\ s_remote sr = Some (Pub (Priv (c_si c))) /\
+  s_auth si = Some (c_payload c).
+Proof. intros c si sr. apply tamper_agreement_run. apply faithful_no_forgery_run. Qed.
+
+Corollary version_swap_keys_agree : forall c si sr,
+  r_init (run c version_swap) = Completed si -> r_resp (run c version_swap) = Completed sr ->
+  s_send si = s_recv sr /\ s_recv si = s_send sr /\
+  s_remote si = Some (Pub (Priv (c_sr c))) /\ s_remote sr = Some (Pub (Priv (c_si c))) /\
+  s_auth si = Some (c_payload c).
+Proof. intros c si sr. apply tamper_agreement_run. apply version_swap_no_forgery_run. Qed.
+
+Print Assumptions tamper_agreement_run.
+Print Assumptions tamper_agreement.
